@@ -388,7 +388,17 @@ def solve(assumptions, goal, timeout_ms, want_model=True, quick=False):
         for a in asm:
             s.add(a)
         s.add(z3.Not(goal))
-        r = s.check()
+        # z3 does not always honour its own timeout (sequence / nonlinear cores): interrupt it from a watchdog
+        import threading
+        wd = threading.Timer(max(tmo, 200) / 1000.0 + 3.0, s.ctx.interrupt)
+        wd.daemon = True
+        wd.start()
+        try:
+            r = s.check()
+        except z3.Z3Exception:
+            r = z3.unknown
+        finally:
+            wd.cancel()
         if r == z3.unsat:
             return 'proved', ver, time.time() - t0, None, ('' if seed == 0 else 'z3 retry with seed %d' % seed)
         if r == z3.sat:
